@@ -3,7 +3,9 @@
    Rule::isValidParameterName, normalize_path, findNode, findOrCreateNode), include/llbuild/Ninja/Manifest.h
    (Scope::lookupBinding / insertBinding) and the pieces of lib/llvm/Support/Path.cpp and StringRef.cpp they use
    (make_absolute, root_name, root_directory, relative_path, append; getAsInteger(10, long)), as the source is NOW
-   (after the repair 93e41ab: a rule variable that refers to itself is reported).  Definitions only (no proofs).
+   (after the repairs 93e41ab: a rule variable that refers to itself is reported; 61345c3: rules are looked up
+   through the scope chain; 4fc9269: `default` paths are evaluated; 4a0983c: include nesting is bounded by 64).
+   Definitions only (no proofs).
 
    Input of the model: what the PARSER (lib/Ninja/Parser.cpp) hands to ParseActions, i.e. the sequence of actOn*
    calls with the UNEVALUATED token texts, as a list of [decl]; a virtual file system [files] maps the absolute
@@ -22,9 +24,11 @@
      program order;
    * error messages are the enumeration [err]; the text fragments the C++ splices into a message (variable name,
      deps style, pool name) are carried as arguments;
-   * the C++ recursion of include/subninja (actOnIncludeDecl -> Parser::parse -> parseDecl -> actOnIncludeDecl) has
-     no bound in the code; the model recurses on explicit fuel and reports [EOutOfFuel] for the decl at which the
-     fuel is exhausted (NinjaEvalProofs.v: a self-including file exhausts every fuel);
+   * the C++ recursion of include/subninja (actOnIncludeDecl -> Parser::parse -> parseDecl -> actOnIncludeDecl) is
+     bounded by enterFile: an include met while includeStack.size() >= 64 is refused with [EIncludeTooDeep].  The
+     model carries that stack size as [depth] and, Gallina needing a structural argument, recurses on explicit
+     fuel, reporting [EOutOfFuel] for the decl at which the fuel is exhausted (NinjaEvalProofs.v: unreachable
+     with fuel >= 64);
    * the recursion lookupBuildParameterImpl -> evalString -> lookupBuildParameter is bounded in the code by the
      activeRuleParameters guard; the model recurses on fuel S (number of rule variables) and reports [EOutOfFuel]
      otherwise (NinjaEvalProofs.v: unreachable);
@@ -83,6 +87,7 @@ Inductive err :=
 | EDuplicateRule                              (* duplicate rule *)
 | EMissingCommand                             (* missing 'command' variable assignment *)
 | EMissingFile                                (* the delegate's readFile returned no buffer *)
+| EIncludeTooDeep                             (* include nesting too deep *)
 | EParse (code : N)                           (* reported by the parser (passed through) *)
 | ENullNode                                   (* model only: the C++ would keep a null Node* here *)
 | EOutOfFuel.                                 (* model only *)
@@ -211,9 +216,16 @@ Definition set_var (sc : scopes) (n v : bytes) : scopes :=
   | f :: ps => mkFrame (aset n v (f_vars f)) (f_rules f) :: ps
   end.
 
-(* getCurrentScope().getRules().find(name): the CURRENT scope only, parents are not consulted *)
+(* getCurrentScope().getRules()[name] as used by actOnBeginRuleDecl: the CURRENT scope only *)
 Definition find_rule (sc : scopes) (n : bytes) : option vars :=
   match sc with [] => None | f :: _ => aget n (f_rules f) end.
+
+(* Scope::lookupRule: this scope, then its parents *)
+Fixpoint lookup_rule (sc : scopes) (n : bytes) : option vars :=
+  match sc with
+  | [] => None
+  | f :: ps => match aget n (f_rules f) with Some r => Some r | None => lookup_rule ps n end
+  end.
 
 Definition set_rule (sc : scopes) (n : bytes) (r : vars) : scopes :=
   match sc with
@@ -539,7 +551,7 @@ Definition end_build (wd : bytes) (sc : scopes) (pools : list (bytes * N))
 Definition run_build (wd : bytes) (sc : scopes) (st : mstate)
            (outs : list bytes) (rname : bytes) (ex im oo : list bytes) (binds : list bitem) : mstate :=
   let '(rn, rule, e0) :=
-    match find_rule sc rname with
+    match lookup_rule sc rname with
     | Some r => (rname, r, [])
     | None => (nm_phony, [], [EUnknownRule])       (* manifest->getPhonyRule() *)
     end in
@@ -594,14 +606,16 @@ Definition run_rule (sc : scopes) (st : mstate) (name : bytes) (binds : list bit
 
 (* ---------------------------------------------------------------- default *)
 
-(* actOnDefaultDecl: the token text is looked up as it stands (it is not evaluated) *)
-Fixpoint run_default (wd : bytes) (st : mstate) (paths : list bytes) : mstate :=
+(* actOnDefaultDecl: each token is evaluated in the current scope, then looked up (never created) *)
+Fixpoint run_default (wd : bytes) (sc : scopes) (st : mstate) (paths : list bytes) : mstate :=
   match paths with
   | [] => st
-  | p :: ps =>
-    match find_node wd (m_nodes st) p with
-    | None => run_default wd (add_errors st [EUnknownTarget]) ps
-    | Some n => run_default wd (add_default st n) ps
+  | t :: ps =>
+    let '(p, es) := eval_in_scope sc t in
+    let st1 := add_errors st es in
+    match find_node wd (m_nodes st1) p with
+    | None => run_default wd sc (add_errors st1 [EUnknownTarget]) ps
+    | Some n => run_default wd sc (add_default st1 n) ps
     end
   end.
 
@@ -617,7 +631,7 @@ Fixpoint find_file (fs : files) (path : bytes) : option (list decl) :=
 Definition run_simple (wd : bytes) (d : decl) (sc : scopes) (st : mstate) : scopes * mstate :=
   match d with
   | DBinding n v => let '(val, es) := eval_in_scope sc v in (set_var sc n val, add_errors st es)
-  | DDefault ps => (sc, run_default wd st ps)
+  | DDefault ps => (sc, run_default wd sc st ps)
   | DBuild outs r ex im oo bs => (sc, run_build wd sc st outs r ex im oo bs)
   | DPool n bs => (sc, run_pool sc st n bs)
   | DRule n bs => run_rule sc st n bs
@@ -625,8 +639,12 @@ Definition run_simple (wd : bytes) (d : decl) (sc : scopes) (st : mstate) : scop
   | DInclude _ _ => (sc, st)
   end.
 
-(* Parser::parse of one file: the decls in order.  fuel bounds the include / subninja nesting below this file. *)
-Fixpoint run_decls (fuel : nat) (wd : bytes) (fs : files) (ds : list decl) (acc : scopes * mstate)
+(* const size_t maxIncludeDepth = 64 (enterFile) *)
+Definition max_include_depth : nat := 64.
+
+(* Parser::parse of one file: the decls in order.  depth = includeStack.size() while this file is parsed (the main
+   file: 1); fuel bounds the include / subninja nesting below this file. *)
+Fixpoint run_decls (fuel : nat) (depth : nat) (wd : bytes) (fs : files) (ds : list decl) (acc : scopes * mstate)
   : scopes * mstate :=
   fold_left
     (fun (a : scopes * mstate) (d : decl) =>
@@ -635,14 +653,15 @@ Fixpoint run_decls (fuel : nat) (wd : bytes) (fs : files) (ds : list decl) (acc 
        | DInclude is_inc ptext =>
          let '(path, es) := eval_in_scope sc ptext in
          let st1 := add_errors st es in
+         if Nat.leb max_include_depth depth then (sc, add_errors st1 [EIncludeTooDeep]) else
          match fuel with
          | O => (sc, add_errors st1 [EOutOfFuel])
          | S f =>
            match find_file fs (make_absolute wd path) with
            | None => (sc, add_errors st1 [EMissingFile])
            | Some ds' =>
-             if is_inc then run_decls f wd fs ds' (sc, st1)
-             else (sc, snd (run_decls f wd fs ds' (empty_frame :: sc, st1)))
+             if is_inc then run_decls f (S depth) wd fs ds' (sc, st1)
+             else (sc, snd (run_decls f (S depth) wd fs ds' (empty_frame :: sc, st1)))
            end
          end
        | _ => run_simple wd d sc st
@@ -663,7 +682,7 @@ Definition load (fuel : nat) (wd : bytes) (fs : files) (main : bytes) : manifest
   match find_file fs (make_absolute wd main) with
   | None => mkManifest false empty_frame [] [] [] [EMissingFile]
   | Some ds =>
-    let '(sc, st) := run_decls fuel wd fs ds (init_scopes, init_state) in
+    let '(sc, st) := run_decls fuel 1 wd fs ds (init_scopes, init_state) in
     mkManifest true (match sc with f :: _ => f | [] => empty_frame end)
                (m_commands st) (m_defaults st) (m_pools st) (m_errors st)
   end.
